@@ -81,6 +81,9 @@ CATALOGUE = {
     "max-errors-one-more": (O, "            and len(self.errors) >= self.options.max_errors", "            and len(self.errors) > self.options.max_errors", ["C10"]),
     "collect-swallows-exceed": (B, "        if context.options.addition is False:\n            context.handle_error(exc.ExceedError(item=key, value=value))\n            return unprovided", "        if context.options.addition is False:\n            if not context.options.collect_errors:\n                context.handle_error(exc.ExceedError(item=key, value=value))\n            return unprovided", ["C10"]),
     "depth-counts-routes": (O, "        if route is not None:\n            # index 0 and the key '' are routes too\n            self.routes.append(route)\n        else:\n            self.depth += 1", "        if route is not None:\n            # index 0 and the key '' are routes too\n            self.routes.append(route)\n            if isinstance(route, int) and route > 1:\n                self.depth += 1\n        else:\n            self.depth += 1", ["C18"]),
+    "gen-return-unconverted": (FN, "                if result is None or not self.generator_return_type:\n                    # raise the same StopIteration\n                    return result\n                try:\n                    result = context.transformer(result, self.generator_return_type)", "                if result is None or not self.generator_return_type or True:\n                    # raise the same StopIteration\n                    return result\n                try:\n                    result = context.transformer(result, self.generator_return_type)", ["C08"]),
+    "gen-first-yield-unconverted": (FN, "                if self.generator_yield_type:\n                    try:\n                        item = context.transformer(item, self.generator_yield_type)", "                if self.generator_yield_type and i > 0:\n                    try:\n                        item = context.transformer(item, self.generator_yield_type)", ["C08"]),
+    "gen-send-unconverted": (FN, "                if sent is not None:\n                    if self.generator_send_type:\n                        try:\n                            sent = context.transformer(sent, self.generator_send_type)", "                if sent is not None:\n                    if self.generator_send_type and i > 0:\n                        try:\n                            sent = context.transformer(sent, self.generator_send_type)", ["C08"]),
     "datetime-offset-plus-only": (T, "        if '+' in str(data) or neg_offset:", "        if '+' in str(data):", ["C14"]),
 }
 
